@@ -79,6 +79,7 @@ inductive Op where
   | readMult (k : Nat)
   | readAll
   | discard (k : Nat)
+  | reopen               -- the reader handle is closed and a new one opened on the same region
 deriving Repr, DecidableEq
 
 inductive Res where
@@ -99,6 +100,7 @@ def step (b : RB) : Op → RB × Res
     | none => (b, .err)
   | .readAll => let (b', bs) := readAll b; (b', .bytes bs)
   | .discard k => (discardStride b k, .unit)
+  | .reopen => (b, .unit)          -- both pointers live in the shared description: nothing changes
 
 def runOps : RB → List Op → RB × List Res
   | b, [] => (b, [])
@@ -184,6 +186,7 @@ def parseOp : P (Op × Res) := do
   | "D" => do
     let k ← nat
     pure (.discard k, .unit)
+  | "O" => pure (.reopen, .unit)
   | _ => fail s!"bad op {t}"
 
 open P in
@@ -192,7 +195,7 @@ reported right after it (`BytesReadable`) -/
 def parseOpObs : P (Op × Res × Option Nat) := do
   let (o, r) ← parseOp
   match o with
-  | .discard _ => do
+  | .discard _ | .reopen => do
     let pk ← peek
     match pk.bind String.toNat? with
     | some n => do let _ ← tok; pure (o, r, some n)
@@ -206,6 +209,11 @@ def chkObs (cap : Nat) (a : Ab) : List (Op × Res × Option Nat) → Option Stri
   | [] => none
   | (o, r, ob) :: rest =>
     match o, ob with
+    | .reopen, some rd =>
+      -- a reader that attaches again must find exactly the bytes that were readable before
+      let want := if a.W.length - a.pos ≥ cap then cap - 1 else a.W.length - a.pos
+      if rd = want then chkObs cap a rest
+      else some s!"C18:reopen-lost-data after the reader handle was closed and opened again {rd} bytes are readable, {want} were accepted and not yet read (ring of {cap} bytes)"
     | .discard k, some rd =>
       let np := a.W.length - a.W.length % k
       if rd + 1 ≥ cap ∨ rd > a.W.length then none else
